@@ -370,8 +370,8 @@ pub fn checks() -> Vec<Box<dyn SubCheck>> {
         property: "C17",
         name: "long-run",
         rule: "round robin over 2-13 members (incl. counts that divide no power of two) with 200 - 70000 selections through ONE balancer via the real process_request, sequentially or from 4 tasks on a 4-thread runtime, lengths clustered just past 2^8, 2^12 and 2^16 so that a cursor that is narrowed, masked or reset somewhere shows; oracle: each member exactly k times in k*n selections and (sequential) every window of n consecutive selections covers every member once; non-trivial = more than 256 selections",
-        quick: 10,
-        thorough: 300,
+        quick: 24,
+        thorough: 400,
         max_shrink: 40,
         strategy: long_strategy,
         case: run_case,
